@@ -273,7 +273,35 @@ def _run_history(case, spy):
             lcb = _gaussian_acquisition(Q, m, acq_func="LCB", acq_func_kwargs={"kappa": kappa})
             lcbd = _gaussian_acquisition(Q, m, acq_func="LCBd", acq_func_kwargs={"kappa": kappa})
             res["acq"] = {"lcbd_ok": bool(np.array_equal(lcbd, mu2 - kappa * ep)), "lcb_ok": bool(np.array_equal(lcb, mu1 - kappa * sd)),
-                          "lcbd": np.asarray(lcbd).tolist(), "want": (mu2 - kappa * ep).tolist()}
+                          "lcbd": np.asarray(lcbd).tolist(), "want": (mu2 - kappa * ep).tolist(), "other": {}}
+            # EId / PId / MESd: the `d` variant on the forest must equal the plain variant on a stand-in model whose
+            # std IS the epistemic std (and differ from it on a stand-in with the total std whenever the two stds differ)
+            import inspect
+
+            class _Stub:
+                def __init__(self, mu, sd):
+                    self.mu, self.sd = mu, sd
+
+                def predict(self, X, return_std=False, **kw):
+                    return (self.mu.copy(), self.sd.copy()) if return_std else self.mu.copy()
+
+            has_rs = "random_state" in inspect.signature(_gaussian_acquisition).parameters
+            y_opt = float(np.min(mu1))
+            for name in ("EI", "PI", "MES"):
+                kw = {"acq_func_kwargs": {"xi": 0.01, "kappa": kappa}, "y_opt": y_opt}
+
+                def call(model, acq_func):
+                    k2 = dict(kw)
+                    if has_rs:
+                        k2["random_state"] = np.random.RandomState(123)
+                    else:
+                        np.random.seed(123)
+                    return np.asarray(_gaussian_acquisition(Q, model, acq_func=acq_func, **k2), dtype=float)
+
+                vd = call(m, name + "d")
+                v_ep = call(_Stub(np.asarray(mu2, dtype=float), np.asarray(ep, dtype=float)), name)
+                res["acq"]["other"][name] = {"ok": bool(np.allclose(vd, v_ep, rtol=1e-12, atol=0.0, equal_nan=True)),
+                                             "d": vd.tolist(), "want": v_ep.tolist()}
         except Exception as e:
             res["acq"] = {"error": f"{type(e).__name__}: {e}"}
     return res
@@ -375,6 +403,11 @@ def _evaluate(ck, case, res, reqs, idx, early, reps):
                 fails.append(("d-acquisition-epistemic", "LCBd is not mean - kappa * epistemic std", len(checks) - 1, acq))
             if not acq["lcb_ok"]:
                 fails.append(("acquisition-total", "LCB is not mean - kappa * total std", len(checks) - 1, None))
+            for name, o in acq.get("other", {}).items():
+                ck.count(f"acq_d_checked:{name}d")
+                if not o["ok"]:
+                    fails.append(("d-acquisition-epistemic", f"{name}d is not {name} evaluated with the epistemic std", len(checks) - 1, {name + "d": o}))
+                    break
     return fails, l2
 
 
@@ -487,6 +520,10 @@ def _handle(ck, d, spy, case, budget):
             continue
         done.add(clause)
         ck.count("oracle:" + clause)
+        if clause in ("d-acquisition-epistemic", "acquisition-total"):
+            which = ",".join(sorted(k for k in (detail or {}) if k.endswith("d") and k[:-1] in ("EI", "PI", "MES"))) or ("LCBd" if clause.startswith("d-") else "LCB")
+            ck.fail(f"C18|{clause}|_gaussian_acquisition|{which}", what, case, detail)
+            continue
         if budget.get(clause, 0) >= 4:
             ck.count("oracle-not-shrunk:" + clause)
             continue
@@ -539,6 +576,10 @@ def replay(ck, case):
             if clause in seen:
                 continue
             seen.add(clause)
+            if clause in ("d-acquisition-epistemic", "acquisition-total"):
+                which = ",".join(sorted(q for q in (detail or {}) if q.endswith("d") and q[:-1] in ("EI", "PI", "MES"))) or ("LCBd" if clause.startswith("d-") else "LCB")
+                ck.fail(f"C18|{clause}|_gaussian_acquisition|{which}", what, case, detail)
+                continue
             shrunk, opts, f2 = _classify(ck, d, spy, case, res, clause, k)
             ck.fail(f"C18|{clause}|{_cls_name(case)}.predict|{opts}", what, shrunk, (f2 or (0, 0, 0, detail))[3])
     if "rejected" in res:
